@@ -983,6 +983,32 @@ def oracle_sampling(ctx, seed):
                             _fail(ctx, '%s%s: samples of context row %d coord %d do not follow exp(log_prob): KS=%.4f (limit %.4f), sample mean %.4f vs mean() %.4f'
                                   % (cls, shape, i, j, ks, ksc, sm, float(m[i, j])), cls, shape, 'sample-mismatch', {'context': c.tolist(), 'row': i, 'coord': j, 'n': n, 'seed': seed})
                             break
+        # one draw at a time with the SAME context tensor (num_samples == 1 takes the view-returning path of repeat_rows): the
+        # sequence of draws must still follow exp(log_prob(., context)), and the caller's context must be what it was
+        for shape in ([1], [2]):
+            D = numel(shape)
+            c0 = torch.cat([torch.full((1, D), 0.5), torch.full((1, D), -1.0)], 1)
+            c = c0.clone()
+            d = normal.ConditionalDiagonalNormal(shape)
+            k = 400
+            draws = []
+            for _ in range(k):
+                r = run(lambda: d.sample(1, c))
+                if r[0] != 'ok':
+                    break
+                draws.append(r[1].reshape(-1).clone())
+            if len(draws) == k:
+                s1 = torch.stack(draws)[:, 0]
+                mu, sg = 0.5, math.exp(-1.0)
+                z = ((s1 - mu) / sg).numpy()
+                from math import erf
+                import numpy as _np
+                zs = _np.sort(z); cdf = _np.array([0.5 * (1 + erf(v / math.sqrt(2))) for v in zs])
+                ks = float(max(_np.max(_np.arange(1, k + 1) / k - cdf), _np.max(cdf - _np.arange(0, k) / k)))
+                if ks > 2.6 / math.sqrt(k) or not torch.equal(c, c0):
+                    _fail(ctx, 'ConditionalDiagonalNormal%s: %d successive sample(1, context) draws with one context tensor do not follow exp(log_prob(., context)) '
+                          '(KS=%.3f, limit %.3f); context tensor changed by sampling: %s' % (shape, k, ks, 2.6 / math.sqrt(k), not torch.equal(c, c0)),
+                          'ConditionalDiagonalNormal', shape, 'repeated-single-draws', {'context': c0.tolist(), 'draws': k, 'seed': seed})
         # Bernoulli
         for shape in ([1], [3], [2, 2]):
             D = numel(shape)
